@@ -247,6 +247,63 @@ func countBlocks(bs []*ref.Block, counts map[string]int) {
 	}
 }
 
+// ---- deep nesting (exploration v) -----------------------------------------------------
+
+func deepNesting(x *X, maxDepth int) []*ref.Block {
+	p := func(s string) *ref.Block { return &ref.Block{Kind: ref.BPara, Inl: []ref.Inl{word(s)}} }
+	var kinds []int
+	for len(kinds) < maxDepth {
+		k := x.ChooseFree(6)
+		if k == 0 {
+			break
+		}
+		kinds = append(kinds, k)
+	}
+	if len(kinds) == 0 {
+		return nil
+	}
+	leaves := []*ref.Block{
+		p("foo"),
+		{Kind: ref.BPara, Inl: []ref.Inl{word("foo"), inlSoft, word("bar")}},
+		{Kind: ref.BFenced, Info: "go", Lines: []string{"a", "", "  b"}},
+		{Kind: ref.BIndented, Lines: []string{"a", "  b"}},
+		{Kind: ref.BATX, Level: 2, Inl: []ref.Inl{word("foo")}},
+		{Kind: ref.BSetext, Level: 2, Inl: []ref.Inl{word("foo")}},
+		{Kind: ref.BHTML, Lines: []string{"<div>", "*foo*", "</div>"}},
+	}
+	cur := []*ref.Block{leaves[x.ChooseFree(len(leaves))]}
+	for i := len(kinds) - 1; i >= 0; i-- {
+		switch kinds[i] {
+		case 1:
+			cur = []*ref.Block{{Kind: ref.BQuote, Kids: cur}}
+		case 2:
+			cur = []*ref.Block{{Kind: ref.BBullet, Tight: true, Start: 1, Items: [][]*ref.Block{cur}}}
+		case 3:
+			cur = []*ref.Block{{Kind: ref.BBullet, Tight: false, Start: 1, Items: [][]*ref.Block{append(cur, p("two"))}}}
+		case 4:
+			cur = []*ref.Block{{Kind: ref.BOrdered, Tight: true, Start: 10, Items: [][]*ref.Block{cur}}}
+		case 5:
+			cur = []*ref.Block{{Kind: ref.BBullet, Tight: true, Start: 1, Items: [][]*ref.Block{{p("one")}, cur}}}
+		}
+	}
+	return cur
+}
+
+func nestingDepth(bs []*ref.Block) int {
+	d := 0
+	for _, b := range bs {
+		switch b.Kind {
+		case ref.BQuote:
+			d = max(d, 1+nestingDepth(b.Kids))
+		case ref.BBullet, ref.BOrdered:
+			for _, it := range b.Items {
+				d = max(d, 1+nestingDepth(it))
+			}
+		}
+	}
+	return d
+}
+
 // ---- code block contents (exploration iv) ---------------------------------------------
 
 // codeLineMenu: content lines that matter to fence selection and to verbatim
@@ -326,7 +383,7 @@ func c06Compare(x *X, doc []*ref.Block, label string) {
 func init() {
 	register(&Check{
 		ID:   "C06",
-		Rule: "(i) every block skeleton with <= 4 block nodes and container depth <= 2 (paragraphs, ATX/setext headings, breaks, fenced/indented code, HTML blocks, reference definitions, quotes, tight/loose bullet and ordered lists) x every combination of serializer spelling deviations within the deviation bound; (ii) every sequence of <= n inline atoms from a 31-atom menu inside a paragraph (and a heading) placed in each of 8 composition contexts x spelling deviations; (iii) every text of <= 3 characters over {a, space, all 32 ASCII punctuation characters} with every punctuation character escaped (deviation: minimal escaping), in each context; documents the serializer's guard cannot prove unambiguous are skipped and counted under reach_counters['rejected: <reason>']; non-trivial = the document was accepted and compared (distinct by construction: one execution per (document, spelling))",
+		Rule: "(i) every block skeleton with <= 4 block nodes and container depth <= 2 (paragraphs, ATX/setext headings, breaks, fenced/indented code, HTML blocks, reference definitions, quotes, tight/loose bullet and ordered lists) x every combination of serializer spelling deviations within the deviation bound; (ii) every sequence of <= n inline atoms from a 31-atom menu inside a paragraph (and a heading) placed in each of 8 composition contexts x spelling deviations; (iv) fenced and indented code blocks with every sequence of content lines from a menu of fence-like, indented, blank and marker-like lines in each context; (v) every chain of nested containers up to depth 5 (thorough 6) around each leaf block; (iii) every text of <= 3 characters over {a, space, all 32 ASCII punctuation characters} with every punctuation character escaped (deviation: minimal escaping), in each context; documents the serializer's guard cannot prove unambiguous are skipped and counted under reach_counters['rejected: <reason>']; non-trivial = the document was accepted and compared (distinct by construction: one execution per (document, spelling))",
 		Assumptions: []string{
 			"denotation in the renderer's output conventions (calibration log in DESIGN.md); comparison through ref.Norm; CRLF documents compared after mapping CRLF to LF in the output",
 			"the serializer only emits spellings whose meaning the spec text fixes; its guard re-reads every line with the reference recognisers and rejects rather than guesses",
@@ -393,6 +450,19 @@ func init() {
 					leaf = &ref.Block{Kind: ref.BATX, Level: 2, Inl: seq}
 				}
 				c06Compare(x, wrapContext(ctx, leaf), c06Contexts[ctx])
+			})
+			depth := c.Pick(5, 6)
+			c.Explore("deep-nesting", fmt.Sprintf("every chain of <=%d nested containers from {block quote, tight bullet item, loose bullet item with a second paragraph, ordered item, second item of a tight list} around each of 7 leaf blocks, x spelling deviations <=%d", depth, dev), dev, depth, func(x *X) {
+				doc := deepNesting(x, depth)
+				if doc == nil {
+					return
+				}
+				if r := validSkeleton(doc); r != "" {
+					x.Count("skeleton_invalid: " + r)
+					return
+				}
+				x.Count(fmt.Sprintf("nesting_depth_%d", nestingDepth(doc)))
+				c06Compare(x, doc, "deep-nesting")
 			})
 			nl := c.Pick(3, 4)
 			c.Explore("code-content", fmt.Sprintf("fenced (with/without info string) and indented code blocks with every sequence of <=%d content lines from a %d-line menu of fence-like, indented, blank and marker-like lines, in each context, x spelling deviations <=%d (fence character, fence length, longer closing fence)", nl, len(codeLineMenu), dev), dev, nl, func(x *X) {
@@ -516,6 +586,14 @@ func c20SecondImpl(c *Ctx) {
 		ctx := x.ChooseFree(len(c06Contexts))
 		doc := append(wrapContext(ctx, &ref.Block{Kind: ref.BPara, Inl: seq}), refDefs()...)
 		c20Roundtrip(x, doc, c06Contexts[ctx])
+	})
+	depth := c.Pick(5, 6)
+	c.Explore("canonical-deep-nesting", fmt.Sprintf("S_fmt chains of <=%d nested containers around each leaf block, canonical spelling", depth), 0, depth, func(x *X) {
+		doc := deepNesting(x, depth)
+		if doc == nil || validSkeleton(doc) != "" {
+			return
+		}
+		c20Roundtrip(x, doc, "deep-nesting")
 	})
 	nl := c.Pick(3, 4)
 	c.Explore("canonical-code-content", fmt.Sprintf("fenced and indented code blocks with every sequence of <=%d content lines from the %d-line menu (fence-like lines with trailing spaces and indentation, blank lines, markers), at top level, in a quote, as second block of a loose item and after a paragraph: the formatter has to choose a fence that the content cannot close", nl, len(codeLineMenu)), 0, nl, func(x *X) {
